@@ -186,15 +186,15 @@ def fork_probe():
     root = os.environ.get('VERIF_SCRATCH') or tempfile.gettempdir()
     bad = []
 
-    def child_try(obj, action):
-        """fork; the child performs `action(obj)` under a 0.4 s alarm.  -> 'done' | 'blocked' | 'raised:<E>'"""
+    def child_try(obj, action, limit=0.4):
+        """fork; the child performs `action(obj)` under an alarm.  -> 'done' | 'blocked' | 'raised:<E>'"""
         r, w = os.pipe()
         pid = os.fork()
         if pid == 0:
             try:
                 os.close(r)
                 signal.signal(signal.SIGALRM, signal.SIG_DFL)
-                signal.setitimer(signal.ITIMER_REAL, 0.4)
+                signal.setitimer(signal.ITIMER_REAL, limit)
                 try:
                     action(obj)
                     os.write(w, b'done')
@@ -232,7 +232,7 @@ def fork_probe():
                     bad.append('RLock: the parent could no longer release its own lock after a child tried to')
             else:
                 obj.release()
-            got = child_try(obj, lambda o: (o.acquire(), o.release()))
+            got = child_try(obj, lambda o: (o.acquire(), o.release()), limit=20)      # generous: a loaded machine must not look like a blocked lock
             if got != 'done':
                 bad.append('%s: a forked child could not acquire the free resource (%s)' % (name, got))
             cache.close()
